@@ -1,6 +1,125 @@
-"""Self-test corpus runner (thorough tier): placeholder until the mutant corpus is written."""
-from typing import Any, Dict
+"""Self-test corpus runner (thorough tier): breaking variants must be detected, benign twins must stay silent.
+
+Variants are text edits applied to the *current* source of one file and analysed as an in-memory overlay of the index
+(no scratch copy is written, nothing is executed).  A variant whose anchor text no longer occurs exactly once in the
+current tree is reported as stale and skipped.
+"""
+from __future__ import annotations
+
+import importlib
+import json
+import os
+import sys
+import time
+from concurrent.futures import ProcessPoolExecutor
+from typing import Any, Dict, List, Optional, Tuple
+
+from .index import AnalysisError, Index
+from .report import Ctx, load_known
+
+HERE = os.path.dirname(os.path.abspath(__file__))
+CORPUS_DIR = os.path.join(os.path.dirname(HERE), "selftest", "corpus")
 
 
-def run_for(prop: str, repo: str) -> Dict[str, Any]:
-    return {"breaking": 0, "killed": 0, "benign": 0, "silent": 0, "failures": [], "variants": []}
+def load_corpus(prop: str) -> List[Dict[str, Any]]:
+    p = os.path.join(CORPUS_DIR, f"{prop.lower()}.json")
+    if not os.path.exists(p):
+        return []
+    with open(p) as fh:
+        return json.load(fh)
+
+
+def _run_variant(args: Tuple[str, str, Dict[str, Any]]) -> Dict[str, Any]:
+    prop, repo, v = args
+    t0 = time.time()
+    res: Dict[str, Any] = {"id": v["id"], "kind": v["kind"], "file": v["file"], "what": v.get("what", "")}
+    path = os.path.join(repo, v["file"])
+    try:
+        src = open(path, encoding="utf-8").read()
+    except OSError:
+        res["outcome"] = "stale"
+        return res
+    edits = v.get("edits") or [{"old": v["old"], "new": v["new"]}]
+    for e in edits:
+        if src.count(e["old"]) != 1:
+            res["outcome"] = "stale"
+            res["detail"] = f"anchor occurs {src.count(e['old'])} times"
+            return res
+        src = src.replace(e["old"], e["new"])
+    try:
+        compile(src, v["file"], "exec")
+    except SyntaxError as ex:
+        res["outcome"] = "invalid"
+        res["detail"] = str(ex)
+        return res
+    try:
+        ix = Index(repo, overlay={v["file"]: src})
+        ctx = Ctx(prop, "selftest", ix)
+        mod = importlib.import_module(f"sa.rules.{prop.lower()}")
+        mod.check(ctx)
+        known = {(f["property"], f["rule"], f["key"]) for f in load_known().get("findings", []) if f.get("status") == "known"}
+        new_fail = [i for i in ctx.instances if not i.ok and (prop, i.rule, i.key) not in known]
+        res["fired"] = sorted({i.rule for i in new_fail})
+        res["first"] = (new_fail[0].rule + " " + new_fail[0].key.split("::", 1)[-1][:90]) if new_fail else ""
+        res["outcome"] = "violation" if new_fail else "silent"
+    except AnalysisError as ex:
+        res["outcome"] = "analysis-error"
+        res["detail"] = str(ex)[:160]
+    except Exception as ex:  # pragma: no cover
+        res["outcome"] = "crash"
+        res["detail"] = f"{type(ex).__name__}: {ex}"[:160]
+    res["s"] = round(time.time() - t0, 2)
+    return res
+
+
+def run_for(prop: str, repo: str, jobs: int = 16) -> Dict[str, Any]:
+    corpus = load_corpus(prop)
+    out: Dict[str, Any] = {"breaking": 0, "killed": 0, "fail_closed": 0, "benign": 0, "silent": 0, "stale": 0,
+                           "failures": [], "variants": []}
+    if not corpus:
+        return out
+    with ProcessPoolExecutor(max_workers=min(jobs, len(corpus))) as ex:
+        results = list(ex.map(_run_variant, [(prop, repo, v) for v in corpus]))
+    for v, r in zip(corpus, results):
+        out["variants"].append({k: r.get(k) for k in ("id", "kind", "outcome", "fired", "first", "what")})
+        if r["outcome"] in ("stale", "invalid"):
+            out["stale"] += 1
+            continue
+        if v["kind"] == "break":
+            out["breaking"] += 1
+            want = v.get("rule")
+            if r["outcome"] == "violation" and (not want or any(x.startswith(want) for x in r.get("fired", []))):
+                out["killed"] += 1
+            elif r["outcome"] == "analysis-error":
+                out["fail_closed"] += 1
+            else:
+                out["failures"].append(f"{prop} {v['id']}: breaking variant not detected ({r['outcome']}, fired {r.get('fired')}) - {v.get('what', '')}")
+        else:
+            out["benign"] += 1
+            if r["outcome"] == "silent":
+                out["silent"] += 1
+            else:
+                out["failures"].append(f"{prop} {v['id']}: benign twin raised {r['outcome']} {r.get('fired') or r.get('detail')} - {v.get('what', '')}")
+    return out
+
+
+def main() -> int:
+    """python -m sa.selftest [PROP ...] : run the corpus for the given (or all) properties and print a table."""
+    repo = os.environ.get("PRIMAITE_REPO", "/repo")
+    props = [a.upper() for a in sys.argv[1:]] or sorted(f[:-5].upper() for f in os.listdir(CORPUS_DIR) if f.endswith(".json"))
+    bad = 0
+    for p in props:
+        r = run_for(p, repo)
+        print(f"{p}: breaking {r['killed']}/{r['breaking']} detected (+{r['fail_closed']} fail-closed), benign {r['silent']}/{r['benign']} silent, "
+              f"{r['stale']} stale")
+        for f in r["failures"]:
+            print("   FAIL", f)
+            bad += 1
+        if os.environ.get("SELFTEST_VERBOSE"):
+            for v in r["variants"]:
+                print("     ", v["id"], v["kind"], v["outcome"], v.get("fired"), "|", v.get("first"))
+    return 1 if bad else 0
+
+
+if __name__ == "__main__":
+    sys.exit(main())
